@@ -216,12 +216,17 @@ def gen_float(tape, label, noncanon, dotless=False):
         # a column in which no value has a decimal point (narrowPeak -1 columns, integer-valued bedGraph)
         kind = tape.weighted([(3, 0), (3, 4), (2 if noncanon else 0, 5)], label + ".fk")
     else:
-        kind = tape.weighted([(3, 0), (3, 1), (2, 2), (2 if noncanon else 0, 3), (1, 4), (1 if noncanon else 0, 6), (1 if noncanon else 0, 7)], label + ".fk")
+        kind = tape.weighted([(3, 0), (3, 1), (2, 2), (2 if noncanon else 0, 3), (1, 4), (1 if noncanon else 0, 6), (1 if noncanon else 0, 7), (1 if noncanon else 0, 8)], label + ".fk")
     ip = _digits(tape, 4, label + ".ip")
     if kind == 0:
         t = ip
     elif kind == 4:
         t = "-" + ip
+    elif kind == 8:
+        # an explicit plus sign, plain or scientific: +1.5  +2e-1
+        t = "+" + ip + (("." + _digits(tape, 2, label + ".fp")) if tape.boolean(label + ".pd") else "")
+        if noncanon and tape.boolean(label + ".pe", 1, 3):
+            t += "e" + str(tape.draw(5, label + ".pee") - 2)
     elif kind == 7:
         # a long decimal expansion ('%.20f' / '%.25f'): 19 and more digits behind the point
         t = ip + "." + "".join("0123456789"[tape.draw(10, label + ".ld")] for _ in range(19 + tape.draw(8, label + ".ln")))
@@ -280,7 +285,10 @@ def gen_field(tape, kind, label, noncanon, ctx):
         return gen_int(tape, label, noncanon)
     if kind == "pos1":
         t = gen_int(tape, label, noncanon, maxw=9)
-        return t if int(t) >= 1 else "1"
+        if int(t) >= 1:
+            return t
+        # POS 0 is legal in a VCF (a telomeric record): position -1 in the zero-based table
+        return "0" if tape.boolean(label + ".pos0", 1, 2) else "1"
     if kind == "sint":
         return gen_int(tape, label, noncanon, maxw=9, signed=True)
     if kind == "float":
@@ -711,7 +719,7 @@ def validate(fmt, body, style, lenient_extra=False):
             for (fname, kind), c in zip(fmt.fields[:nfixed], cols):
                 if not _RX[kind].match(c):
                     return ("bad", i, "field:" + fname)
-                if kind == "pos1" and int(c) < 1:
+                if kind == "pos1" and int(c) < 0:
                     return ("bad", i, "field:" + fname)
                 if kind == "vcfinfo" and c != ".":
                     # typed values: Integer / Float items must be numbers (keys the header does not declare are not judged)
